@@ -135,6 +135,8 @@ class XT:
         return TorchSize(self.a.shape)
 
     def _new(self, a, *parents):
+        if not isinstance(a, np.ndarray):
+            a = _obj(a)
         rg = STATE['grad'] and any(isinstance(p, XT) and p.rg for p in (self,) + parents)
         if not STATE['grad']:
             a = _map(el_detach, a)
@@ -372,6 +374,18 @@ class XT:
             raise Unsupported('pinverse has no model in this job')
         return h(self)
 
+    def m_any(self):
+        def nz(e):
+            if is_num(e):
+                return e != 0
+            if isinstance(e, Poly):
+                return not e.is_zero()      # generic point: a non-zero polynomial is non-zero
+            raise Unsupported('Tensor.any() on z3-valued elements')
+        return any(nz(e) for e in self.a.reshape(-1))
+
+    def m_clone(self):
+        return self._new(self.a.copy())
+
     def m_is_floating_point(self):
         return True
 
@@ -473,7 +487,7 @@ def autograd_grad(engine, cx, lineno, outputs, inputs, grad_outputs=None, retain
         if names is None:
             if not inp.rg:
                 raise I.PyExc('RuntimeError', 'One of the differentiated Tensors does not require grad', lineno)
-            raise Unsupported('autograd.grad with respect to a non-leaf tensor')
+            names = _view_eta_names(inp)
         used = any(_mvar(n) in S.vars() for n in names)
         if not used:
             if not allow_unused:
@@ -488,6 +502,22 @@ def autograd_grad(engine, cx, lineno, outputs, inputs, grad_outputs=None, retain
         r = XT(vals.reshape(inp.a.shape), rg=bool(create_graph), leaf=not create_graph, dtype=inp.dtype)
         results.append(r)
     return tuple(results)
+
+
+def _view_eta_names(x):
+    """A non-leaf tensor that is a pure view (slice/reshape) of leaves: every element is c + eta_k with distinct eta_k.
+    Differentiating w.r.t. such a tensor is differentiating w.r.t. those eta_k (T3)."""
+    names = []
+    for e in x.a.reshape(-1):
+        p = Poly.lift(e)
+        lin = [m for m, c in p.t.items() if len(m) == 1 and _is_eta(m[0][0]) and m[0][1] == 1 and c == 1]
+        others = [m for m in p.t if any(_is_eta(v) for v, _ in m) and m not in lin]
+        if len(lin) != 1 or others:
+            raise Unsupported('autograd.grad with respect to a non-leaf tensor that is not a pure view of leaves')
+        names.append(lin[0][0][0])
+    if len(set(names)) != len(names):
+        raise Unsupported('autograd.grad with respect to a view with repeated elements')
+    return names
 
 
 # Differentiation must see only the dependence of the *outputs* on eta, not that of grad_outputs.
